@@ -79,10 +79,52 @@ pub struct Sym {
     pub rtt: u8,
     /// symbolic f64 fields used by enhanced scoring (bitrate, rtt_min, cached quality multiplier)
     pub score_floats: bool,
+    /// restrict the inputs of the two f64 leaves of the enhanced selector (BDP in-flight cap, CC soft
+    /// cap) to the LEAF DOMAIN on which they are replaced by exact tables (see `leaf_tables`)
+    pub leaf_domain: bool,
 }
 
-pub const SYM_INT: Sym = Sym { rtt: 1, score_floats: false };
-pub const SYM_FULL: Sym = Sym { rtt: 1, score_floats: true };
+pub const SYM_INT: Sym = Sym { rtt: 1, score_floats: false, leaf_domain: false };
+pub const SYM_FULL: Sym = Sym { rtt: 1, score_floats: true, leaf_domain: false };
+pub const SYM_LEAF: Sym = Sym { rtt: 1, score_floats: true, leaf_domain: true };
+
+/// The leaf domain and the tables of the two float-heavy leaf functions of the enhanced selector on
+/// it.  Harnesses over N links replace `in_flight_cap_exceeded` and `cc_soft_cap_multiplier` by these
+/// tables (`#[kani::stub]`) and constrain the links to the domain; `c11_leaf_tables_exact` decides
+/// that the REAL functions equal the tables on every point of the domain.  So the N-link queries
+/// contain no f64 division, and - because the tables are exact - a counterexample replays natively
+/// on the real functions.
+///   rtt_min = 1000 ms;  CC target in {0 (no signal), 8001 bit/s (BDP cap = 1 packet), 10^12 bit/s
+///   (cap = 142_477_203 packets)};  measured bitrate in {0, target/2, target}  (soft cap 1.0 / 0.5 / 0.1)
+pub mod leaf_tables {
+    use srtla_core::connection::SrtlaConnection;
+    pub const T_SMALL: u64 = 8_001;
+    pub const T_BIG: u64 = 1_000_000_000_000;
+    pub const RTT_MIN_MS: f64 = 1000.0;
+    pub const CAP_BIG: i32 = 142_477_203;
+
+    pub fn cap_exceeded(c: &SrtlaConnection) -> bool {
+        if c.cc_target_bps == T_SMALL {
+            c.in_flight_packets > 1
+        } else if c.cc_target_bps == T_BIG {
+            c.in_flight_packets > CAP_BIG
+        } else {
+            false // 0: no rate signal, no cap
+        }
+    }
+
+    pub fn soft_cap(c: &SrtlaConnection) -> f64 {
+        let t = c.cc_target_bps;
+        let m = c.vh_bitrate().current_bitrate_bps;
+        if t == 0 || m <= 0.0 {
+            1.0
+        } else if m == t as f64 {
+            0.1
+        } else {
+            0.5 // m == t / 2 on the domain
+        }
+    }
+}
 
 /// The solver-chosen values an arbitrary link is built from.  Kept as a plain Copy struct so a
 /// harness can build the *same* link twice (relational properties, C12) or inspect the values.
@@ -162,14 +204,31 @@ pub fn any_vals(sym: Sym) -> ConnVals {
             (x, v, kani::any())
         }
     };
+    let mut cc_target_bps: u64 = kani::any();
     let (bitrate_bps, rtt_min_ms, quality_mult, quality_at_ms) = if sym.score_floats {
-        let bps: f64 = kani::any();
-        kani::assume(bps >= 0.0 && bps <= 1.0e10);
-        let rmin: f64 = kani::any();
-        kani::assume(rmin.is_finite());
         let q: f64 = kani::any();
         kani::assume(q >= 0.35 && q <= 1.1 * 1.03);
-        (bps, rmin, q, any_time())
+        if sym.leaf_domain {
+            let tk: u8 = kani::any();
+            cc_target_bps = match tk % 3 {
+                0 => 0,
+                1 => leaf_tables::T_SMALL,
+                _ => leaf_tables::T_BIG,
+            };
+            let mk: u8 = kani::any();
+            let bps = match mk % 3 {
+                0 => 0.0,
+                1 => cc_target_bps as f64 / 2.0,
+                _ => cc_target_bps as f64,
+            };
+            (bps, leaf_tables::RTT_MIN_MS, q, any_time())
+        } else {
+            let bps: f64 = kani::any();
+            kani::assume(bps >= 0.0 && bps <= 1.0e10);
+            let rmin: f64 = kani::any();
+            kani::assume(rmin.is_finite());
+            (bps, rmin, q, any_time())
+        }
     } else {
         (0.0, 200.0, 1.0, 0)
     };
@@ -193,7 +252,7 @@ pub fn any_vals(sym: Sym) -> ConnVals {
         weak: kani::any(),
         cc_backing_off: kani::any(),
         loss_degraded: kani::any(),
-        cc_target_bps: kani::any(),
+        cc_target_bps,
         last_reconnect_attempt_ms: any_time(),
         reconnect_failure_count: kani::any(),
         established_ms: any_time(),
